@@ -1,9 +1,11 @@
 // Command buffermc model-checks the real hybridbuffer (bufferer + outputFeeder goroutine + chunk manager/operator on a
 // real scratch directory) against a driver playing the pipeline worker and a scripted consumer, over several
-// generations of destroy + restart on the same directory. Serves C03 and (buffer part) C18.
+// generations of destroy + restart on the same directory. Serves C03, the buffer parts of C05 (order oracle only) and
+// C19 (metrics:* oracles only).
 package main
 
 import (
+	"bytes"
 	"flag"
 	"fmt"
 	"os"
@@ -32,12 +34,27 @@ type params struct {
 	dirOK       bool
 	gens        [][]int // chunk sizes accepted per generation
 	consumerAlt int     // consumer behaviours offered per chunk: 1 confirm only, 2 +keep, 3 +stall, 4 +finish early, 5 +hang forever
-	boundCheck  bool
 	// a queue directory left by an earlier life of the agent: prefill chunk files (1 byte each, names in creation order) and
 	// stale temporary files "<name>.tmp" of interrupted saves in front of the chunks at the given positions (0-based)
 	prefill  int
 	staleTmp []int
 	maxSteps int
+	// prefilled chunk files (0-based among the chunk files, stale temporaries not counted) that are zero-length: leftovers of
+	// a full disk, of an agent version that wrote in place, of a truncation by an operator
+	emptyAt []int
+	// what the environment does to the file of a queued, still unloaded chunk while the agent runs: "vanish" (removed by a
+	// clean-up job / a second agent) or "truncate" (cut to zero length). It hits the sabotageAt-th prefilled chunk file
+	// (0-based), which must lie beyond what the feeder can load while the consumer does not read (memCap+1 chunks); the
+	// consumer of generation 0 starts reading only after the event
+	sabotage   string
+	sabotageAt int
+	// the consumer may need virtual time after the stop (InputClosed) before it hands its chunks back and finishes, as the
+	// real forwarder does (up to ForwarderAckerStopTimeout)
+	slowStop bool
+	// scripted consumer behaviour per generation instead of an explorer choice (for default-schedule scenarios)
+	genAct []int
+	// state keys off (large files / large backlogs: the environment hash walks the directory at every choice point)
+	noStateKeys bool
 }
 
 type entry struct {
@@ -46,20 +63,23 @@ type entry struct {
 	confirmed int
 	missing   bool
 	handed    int
+	envLost   bool // its file was removed by the environment (not by the buffer) while it was queued unloaded
 }
 
 type world struct {
 	placedTmp map[string]bool
-	p        params
-	root     string
-	qdir     string
-	ledger   map[string]*entry
-	ids      []string
-	viol     []string
-	violKey  string
-	nextID   int
-	outcome  []string
-	hungSeen bool
+	p         params
+	root      string
+	qdir      string
+	ledger    map[string]*entry
+	ids       []string
+	viol      []string
+	violKey   string
+	nextID    int
+	outcome   []string
+	hungSeen  bool
+	// the environment's file event of a sabotage scenario has happened (the consumer of generation 0 waits for it)
+	sabotageDone bool
 }
 
 func (w *world) violate(key, format string, args ...any) {
@@ -113,12 +133,55 @@ func (w *world) files() map[string][]byte {
 	return out
 }
 
+// sizes lists the chunk files of the queue directory with their sizes without reading them
+func (w *world) sizes() map[string]int64 {
+	out := map[string]int64{}
+	ents, err := os.ReadDir(w.qdir)
+	if err != nil {
+		return out
+	}
+	for _, e := range ents {
+		if e.Name() == ".id" || e.IsDir() || w.placedTmp[e.Name()] {
+			continue
+		}
+		if fi, ierr := e.Info(); ierr == nil {
+			out[e.Name()] = fi.Size()
+		}
+	}
+	return out
+}
+
 func (w *world) diskBytes() int64 {
 	var n int64
-	for _, d := range w.files() {
-		n += int64(len(d))
+	for _, sz := range w.sizes() {
+		n += sz
 	}
 	return n
+}
+
+// describeDiff says how two chunk contents differ without printing them (chunks may be megabytes)
+func describeDiff(got, want []byte) string {
+	n := len(got)
+	if len(want) < n {
+		n = len(want)
+	}
+	at := -1
+	for i := 0; i < n; i++ {
+		if got[i] != want[i] {
+			at = i
+			break
+		}
+	}
+	show := func(b []byte) string {
+		if len(b) > 16 {
+			return fmt.Sprintf("%q...", b[:16])
+		}
+		return fmt.Sprintf("%q", b)
+	}
+	if at < 0 {
+		return fmt.Sprintf("%d bytes %s instead of %d bytes %s (one is a prefix of the other)", len(got), show(got), len(want), show(want))
+	}
+	return fmt.Sprintf("%d bytes %s instead of %d bytes %s (first difference at offset %d)", len(got), show(got), len(want), show(want), at)
 }
 
 type consumer struct {
@@ -129,10 +192,25 @@ type consumer struct {
 	done   bool
 	hung   bool // the consumer never finishes (e.g. blocked on its upstream beyond every timeout)
 	events []string
+	gated  bool          // does not read before the environment's file event (sabotage scenarios, generation 0)
+	act    int           // scripted behaviour (-1: explorer choice)
+	slow   time.Duration // virtual time taken between the stop and the hand-backs
+}
+
+// stopLatencies are the delays a slow consumer may take between the stop signal and its hand-backs: none, just above the
+// shortest wait Destroy knows (2 x IntermediateChannelTimeout, the wait of the send-all mode), and just below what the real
+// forwarder is granted to stop (ForwarderAckerStopTimeout). Destroy of a queue with a directory waits
+// BufferShutDownTimeout + IntermediateChannelTimeout, which covers all of them.
+func stopLatencies() []time.Duration {
+	return []time.Duration{0, defs.IntermediateChannelTimeout*2 + time.Second, defs.ForwarderAckerStopTimeout - time.Second}
 }
 
 func (c *consumer) run() {
 	w := c.w
+	if c.gated {
+		vsched.WaitUntil("consumer.not-reading-yet", time.Time{}, func() bool { return w.sabotageDone })
+	}
+	early := false
 loop:
 	for {
 		sel := vsched.Select("consumer.select", false, vsched.RecvCase(c.args.InputChannel), vsched.RecvCase(c.args.InputClosed.Channel()))
@@ -148,13 +226,15 @@ loop:
 		switch {
 		case e == nil:
 			w.violate("unknown-chunk", "consumer was offered unknown chunk %s", chunk.ID)
-		case string(e.data) != string(chunk.Data):
-			w.violate("altered", "chunk %s reached the consumer with %d bytes %q, accepted as %d bytes %q", chunk.ID, len(chunk.Data), chunk.Data, len(e.data), e.data)
+		case !bytes.Equal(e.data, chunk.Data):
+			w.violate("altered", "chunk %s reached the consumer with %s", chunk.ID, describeDiff(chunk.Data, e.data))
 		case e.confirmed > 0:
 			w.violate("offered-after-confirm", "chunk %s offered again after it was confirmed", chunk.ID)
 		}
 		act := 0
-		if w.p.consumerAlt > 1 {
+		if c.act >= 0 {
+			act = c.act
+		} else if w.p.consumerAlt > 1 {
 			act = vsched.Choose(w.p.consumerAlt, "consumer")
 		}
 		switch act {
@@ -179,12 +259,22 @@ loop:
 		case 3:
 			vsched.Note("consumer finishes early holding %s", chunk.ID)
 			c.held = append(c.held, chunk)
+			early = true
 			break loop
 		case 4:
 			vsched.Note("consumer hangs forever holding %s", chunk.ID)
 			c.held = append(c.held, chunk)
 			c.hung = true
 			vsched.WaitUntil("consumer.hang", time.Time{}, func() bool { return false })
+		}
+	}
+	if w.p.slowStop && !early {
+		// stopped by the buffer: a consumer with an upstream (ACKs in flight, a connection to close) takes its time
+		lat := stopLatencies()
+		if k := vsched.Choose(len(lat), "consumer.stop-latency"); k > 0 {
+			c.slow = lat[k]
+			vsched.Note("consumer needs %v to stop", c.slow)
+			vsched.Sleep(c.slow, "consumer.slow-stop")
 		}
 	}
 	for _, chunk := range c.held {
@@ -218,7 +308,7 @@ func makeRun(p params) explore.RunFunc {
 		if p.maxSteps > 0 {
 			maxSteps = p.maxSteps
 		}
-		res := vsched.Run(vsched.Options{Choose: choose, Trace: trace, MaxSteps: maxSteps, StateKeys: p.prefill < 50, EnvState: w.stateHash}, func() {
+		res := vsched.Run(vsched.Options{Choose: choose, Trace: trace, MaxSteps: maxSteps, StateKeys: p.prefill < 50 && !p.noStateKeys, EnvState: w.stateHash}, func() {
 			verdict = drive(w)
 		})
 		switch res.Status {
@@ -256,13 +346,24 @@ func (w *world) stateHash() uint64 {
 		mix(fmt.Sprint(id, e.confirmed, e.missing, e.handed))
 	}
 	names := []string{}
-	for n, d := range w.files() {
-		names = append(names, fmt.Sprint(n, len(d)))
+	for n, sz := range w.sizes() {
+		names = append(names, fmt.Sprint(n, sz))
 	}
 	sort.Strings(names)
 	mix(strings.Join(names, ","))
 	mix(fmt.Sprint(len(w.viol)))
 	return h
+}
+
+// passed reports whether the consumer was offered a chunk younger than id in this generation: the queue is FIFO, so the
+// feeder had taken id from the queue before
+func passed(seen []string, id string) bool {
+	for _, s := range seen {
+		if s > id {
+			return true
+		}
+	}
+	return false
 }
 
 func drive(w *world) explore.Verdict {
@@ -274,23 +375,34 @@ func drive(w *world) explore.Verdict {
 	}
 	cfg := hybridbuffer.Config{RootPath: rootPath, MaxBufSize: datasize.ByteSize(p.maxBuf)}
 	maxChunk := 0
+	totalChunks := p.prefill
 	for _, g := range p.gens {
+		totalChunks += len(g)
 		for _, s := range g {
 			if s > maxChunk {
 				maxChunk = s
 			}
 		}
 	}
+	// a queue that has room for every chunk of the whole run never overflows: then every counted drop is a chunk the
+	// harness itself misses (no file, no confirmation), and the drop counter can be checked from both sides
+	exactDrops := p.queueCap >= totalChunks
 	for g, sizes := range p.gens {
 		mf := promreg.NewMetricFactory(fmt.Sprintf("g%d_", g), nil, nil)
 		buf := cfg.NewBufferer(logger.Root(), "q1", matchChunkID, mf, false)
 		w.qdir = buf.(interface{ QueueDirPath() string }).QueueDirPath()
+		sabotageID := ""
 		if g == 0 && p.prefill > 0 {
 			w.placedTmp = map[string]bool{}
 			tmpAt := map[int]bool{}
 			for _, k := range p.staleTmp {
 				tmpAt[k] = true
 			}
+			emptyAt := map[int]bool{}
+			for _, k := range p.emptyAt {
+				emptyAt[k] = true
+			}
+			ci := 0 // index among the chunk files
 			for i := 0; i < p.prefill+len(p.staleTmp); i++ {
 				w.nextID++
 				id := fmt.Sprintf("%04d.ch", w.nextID)
@@ -301,6 +413,13 @@ func drive(w *world) explore.Verdict {
 					continue
 				}
 				data := makeData(id, 1)
+				if emptyAt[ci] {
+					data = []byte{}
+				}
+				if p.sabotage != "" && ci == p.sabotageAt {
+					sabotageID = id
+				}
+				ci++
 				w.ledger[id] = &entry{data: data, gen: -1}
 				w.ids = append(w.ids, id)
 				os.WriteFile(filepath.Join(w.qdir, id), data, 0o644)
@@ -310,7 +429,10 @@ func drive(w *world) explore.Verdict {
 		onDiskBefore := w.files()
 		buf.Start()
 		args := buf.RegisterNewConsumer()
-		cons := &consumer{w: w, args: args}
+		cons := &consumer{w: w, args: args, act: -1, gated: sabotageID != ""}
+		if g < len(p.genAct) {
+			cons.act = p.genAct[g]
+		}
 		vsched.Go("consumer", cons.run)
 		allQuiet := true
 		quietCheck := func(quiet bool, where string) {
@@ -334,6 +456,25 @@ func drive(w *world) explore.Verdict {
 				}
 			}
 		}
+		if sabotageID != "" {
+			// the environment's file event, by default once the feeder has loaded all it can hold while nobody reads
+			vsched.Lazy("driver.file-event")
+			e := w.ledger[sabotageID]
+			path := filepath.Join(w.qdir, sabotageID)
+			switch p.sabotage {
+			case "vanish":
+				vsched.Note("environment removes the file of queued chunk %s", sabotageID)
+				os.Remove(path)
+				e.envLost = true
+			case "truncate":
+				vsched.Note("environment truncates the file of queued chunk %s to zero length", sabotageID)
+				os.Truncate(path, 0)
+				e.data = []byte{}
+			default:
+				panic("unknown sabotage kind " + p.sabotage)
+			}
+			w.sabotageDone = true
+		}
 		for _, sz := range sizes {
 			quiet := vsched.Lazy("driver.accept")
 			quietCheck(quiet, "before an Accept")
@@ -343,21 +484,28 @@ func drive(w *world) explore.Verdict {
 			w.ledger[id] = &entry{data: data, gen: g}
 			w.ids = append(w.ids, id)
 			vsched.Note("accept %s size=%d", id, sz)
+			ta := vsched.Elapsed()
 			buf.Accept(base.LogChunk{ID: id, Data: append([]byte(nil), data...)})
+			// virtual time only moves when every goroutine is blocked (A-time: internal steps take none): any time spent
+			// inside Accept means the pipeline worker waited there on a timer or on somebody else
+			if d := vsched.Elapsed() - ta; d != 0 {
+				w.violate("accept-blocked", "Accept of chunk %s returned only after %v of virtual time: the caller was blocked (queue capacity %d, BufferMaxNumChunksInMemory=%d)", id, d, p.queueCap, p.memCap)
+			}
 		}
 		quiet := vsched.Lazy("driver.destroy")
 		quietCheck(quiet, "before Destroy")
 		vsched.Note("destroy generation %d", g)
 		t0 := vsched.Elapsed()
 		buf.Destroy()
-		if !cons.hung {
-			vsched.Recv(buf.Stopped().Channel(), "driver.wait-stopped")
-		}
 		took := vsched.Elapsed() - t0
-		if !cons.done && !cons.hung {
-			w.violate("stopped-before-consumer", "buffer reported stopped while the consumer had not finished")
-		}
-		if cons.hung {
+		// ---- The moment Destroy returns is the moment the agent process goes on to exit (the orchestrator reports the
+		// pipeline stopped right after Destroy; nothing in production waits on Stopped()). The directory, the counters and
+		// the consumer's state are taken here, before any other goroutine runs again; whatever happens later does not count.
+		files := w.files()
+		m := hutil.Metrics(mf)
+		consDone, consHung, consSlow := cons.done, cons.hung, cons.slow
+		vsched.Note("Destroy returned after %v (consumer finished=%v hung=%v)", took, consDone, consHung)
+		if consHung {
 			// the chunk in the hands of a consumer that never returns it is outside the buffer's reach; if it was never
 			// saved it dies with the process. Everything else must still be conserved when Destroy gives up waiting.
 			for _, ch := range cons.held {
@@ -367,15 +515,14 @@ func drive(w *world) explore.Verdict {
 			}
 		}
 		// ---- end-of-generation accounting
-		m := hutil.Metrics(mf)
 		pre := fmt.Sprintf("g%d_", g)
 		dropped := int(hutil.Sum(m, pre+"dropped_chunks_total"))
 		consumedM := int(hutil.Sum(m, pre+"consumed_chunks_total"))
 		leftoverM := int(hutil.Sum(m, pre+"leftover_chunks_total"))
 		inputM := int(hutil.Sum(m, pre+"input_chunks_total"))
 		pendingM := int(hutil.Sum(m, pre+"pending_chunks"))
-		files := w.files()
 		newlyMissing := 0
+		lostInQueue := 0
 		confirmedNow := 0
 		recovered := 0
 		for _, id := range w.ids {
@@ -394,10 +541,17 @@ func drive(w *world) explore.Verdict {
 					w.violate("confirmed-file-remains", "chunk %s was confirmed but its file is still in the queue directory", id)
 				}
 			case onDisk:
-				if string(f) != string(e.data) {
-					w.violate("file-altered", "file of chunk %s holds %d bytes, accepted %d bytes (content differs)", id, len(f), len(e.data))
+				if !bytes.Equal(f, e.data) {
+					w.violate("file-altered", "file of chunk %s holds %s", id, describeDiff(f, e.data))
 				}
+			case e.envLost && !passed(cons.seen, id):
+				// its file was removed by the environment while it waited unloaded in the queue, and the feeder is not known to
+				// have reached it in this generation: the buffer cannot have noticed; it may or may not have counted it
+				e.missing = true
+				lostInQueue++
 			default:
+				// gone: the buffer owes a counted drop (this includes a chunk whose file the environment removed or emptied
+				// once the feeder has come across it)
 				e.missing = true
 				newlyMissing++
 			}
@@ -420,10 +574,14 @@ func drive(w *world) explore.Verdict {
 			if handedLost >= newlyMissing-dropped {
 				key = "silent-loss:handback-not-saved"
 			}
-			w.violate(key, "generation %d: %d chunks are neither confirmed nor on disk but dropped_chunks_total=%d (consumed=%d leftover=%d input=%d pending=%d)",
-				g, newlyMissing, dropped, consumedM, leftoverM, inputM, pendingM)
+			w.violate(key, "generation %d: %d chunks are neither confirmed nor on disk when Destroy returns but dropped_chunks_total=%d (consumed=%d leftover=%d input=%d pending=%d; consumer finished=%v)",
+				g, newlyMissing, dropped, consumedM, leftoverM, inputM, pendingM, consDone)
 		}
-		if propFlag == "C19" && !cons.hung {
+		if exactDrops && dropped > newlyMissing+lostInQueue {
+			w.violate("drop-overcount", "generation %d: dropped_chunks_total=%d, but only %d chunks are neither confirmed nor on disk (+%d removed by the environment) and the queue (capacity %d) cannot have overflowed: chunks were counted as dropped that are still there or were delivered",
+				g, dropped, newlyMissing, lostInQueue, p.queueCap)
+		}
+		if propFlag == "C19" && !consHung {
 			// the buffer's counters against what the harness itself observed in this generation
 			confirmedByConsumer, handedBack := 0, 0
 			for _, ev := range cons.events {
@@ -457,9 +615,10 @@ func drive(w *world) explore.Verdict {
 			}
 			if p.dirOK {
 				// after shutdown: files = left for the next start (leftover + still pending) + untouched + at most the dropped
-				// ones (a chunk dropped from a full queue after it was saved keeps its file)
+				// ones (a chunk dropped from a full queue after it was saved keeps its file); a still pending chunk whose file
+				// the environment removed is not there
 				left := leftoverM + pendingM + untouched
-				if onDiskNow := len(files); onDiskNow < left || onDiskNow > left+dropped {
+				if onDiskNow := len(files); onDiskNow < left-lostInQueue || onDiskNow > left+dropped {
 					w.violate("metrics:buffer-left-on-disk", "generation %d: leftover=%d + pending=%d + %d never taken in = %d, dropped=%d, but %d chunk files are in the queue directory after shutdown (input=%d consumed=%d)", g, leftoverM, pendingM, untouched, left, dropped, onDiskNow, inputM, consumedM)
 				}
 			}
@@ -475,21 +634,57 @@ func drive(w *world) explore.Verdict {
 				w.violate("disk-bound-at-end", "queue files take %d bytes after shutdown, limit %d (+%d for a concurrent save)", n, p.maxBuf, maxChunk)
 			}
 		}
-		if p.boundCheck {
-			bound := defs.BufferShutDownTimeout + defs.IntermediateChannelTimeout*2
-			if took > bound {
-				w.violate("stop-too-slow", "Destroy took %v of virtual time, bound %v", took, bound)
+		// Destroy waits as long as it documents, not longer: BufferShutDownTimeout + IntermediateChannelTimeout with a
+		// directory; without one (send-all mode) BufferShutDownTimeout for the pending chunks (polled every 50 ms) and then
+		// 2 x IntermediateChannelTimeout
+		bound := defs.BufferShutDownTimeout + defs.IntermediateChannelTimeout
+		if !p.dirOK {
+			bound = defs.BufferShutDownTimeout + defs.IntermediateChannelTimeout*2 + 100*time.Millisecond
+		}
+		if took > bound {
+			w.violate("stop-too-slow", "Destroy took %v of virtual time, bound %v", took, bound)
+		}
+		// ---- is the shutdown really over when Destroy says so? (Peek is a scheduling point: asked after the accounting.
+		// No virtual time passes while the driver is runnable, so a consumer still sleeping stays asleep.)
+		stopped := buf.Stopped().Peek()
+		switch {
+		case consHung:
+			// Destroy had to give up
+		case !stopped:
+			w.violate("shutdown-gave-up", "Destroy returned after %v while the feeder was still waiting for the consumer (finished=%v), which needs %v after the stop signal to hand back its chunks; the forwarder is granted ForwarderAckerStopTimeout=%v, and Destroy documents a wait of %v",
+				took, consDone, consSlow, defs.ForwarderAckerStopTimeout, bound)
+		case !consDone:
+			w.violate("stopped-before-consumer", "buffer reported stopped while the consumer had not finished")
+		}
+		if !consHung {
+			// the next generation needs the old feeder gone
+			vsched.Recv(buf.Stopped().Channel(), "driver.wait-stopped")
+			if stopped {
+				after := w.sizes()
+				same := len(after) == len(files)
+				for n, d := range files {
+					if sz, ok := after[n]; !ok || sz != int64(len(d)) {
+						same = false
+					}
+				}
+				if !same {
+					w.violate("files-change-after-shutdown-returned", "%d chunk files when Destroy returned, %d (or other sizes) once every goroutine had come to rest: chunks are still being saved or removed after the shutdown was reported complete", len(files), len(after))
+				}
 			}
 		}
-		w.outcome = append(w.outcome, fmt.Sprintf("g%d[seen=%d conf=%d disk=%d miss=%d drop=%d hung=%v]", g, len(cons.seen), confirmedNow, len(files), newlyMissing, dropped, cons.hung))
-		if cons.hung {
+		w.outcome = append(w.outcome, fmt.Sprintf("g%d[seen=%d conf=%d disk=%d miss=%d drop=%d hung=%v]", g, len(cons.seen), confirmedNow, len(files), newlyMissing+lostInQueue, dropped, consHung))
+		if consHung {
 			w.hungSeen = true
 			break // the old feeder still owns the directory: no further generation
 		}
 	}
 	if line := logs.FirstBugLine(); line != "" && !(w.hungSeen && strings.Contains(line, "couldn't stop feeder in time")) {
 		i := strings.Index(line, "BUG")
-		w.violate("bug-log:"+hutil.KeyFrom(line[i:], 40), "agent logged: %s", line)
+		key := "bug-log:" + hutil.KeyFrom(line[i:], 40)
+		if len(line) > 300 {
+			line = line[:300] + "..." // the stack that follows is the harness's own
+		}
+		w.violate(key, "agent logged: %s", line)
 	}
 	v := explore.Verdict{Outcome: strings.Join(w.outcome, " ")}
 	if len(w.viol) > 0 {
@@ -510,8 +705,11 @@ func scenarios() []*explore.Scenario {
 			b["thorough"] = thorough
 		}
 		mo := 2
-		if (!p.dirOK && p.memCap == 0) || p.prefill >= 50 {
+		if (!p.dirOK && p.memCap == 0) || p.prefill >= 50 || len(p.genAct) > 0 {
 			mo = 1
+		}
+		if p.sabotage != "" && (p.sabotageAt < p.memCap+1 || p.sabotageAt >= p.prefill) {
+			panic("scenario " + p.name + ": the file event must hit a chunk the feeder cannot have loaded yet")
 		}
 		out = append(out, &explore.Scenario{Name: p.name, Bound: b, Run: makeRun(p), MinOutcomes: mo})
 	}
@@ -521,24 +719,24 @@ func scenarios() []*explore.Scenario {
 				if q == 2 && maxBuf == 10 {
 					continue
 				}
-				p := params{memCap: mem, queueCap: q, maxBuf: maxBuf, dirOK: true, consumerAlt: 5}
+				p := params{memCap: mem, queueCap: q, maxBuf: maxBuf, dirOK: true, consumerAlt: 5, slowStop: true}
 				p.gens = [][]int{{4, 1, 9}, {4}}
 				p.name = fmt.Sprintf("dir/mem%d/q%d/max%d/g2", mem, q, maxBuf)
 				add(p, 2, 3)
 			}
 		}
 		// a tiny queue that overflows: five accepts against queue capacity 2 with consumers that may stall
-		o := params{memCap: mem, queueCap: 2, maxBuf: 1000, dirOK: true, consumerAlt: 5}
+		o := params{memCap: mem, queueCap: 2, maxBuf: 1000, dirOK: true, consumerAlt: 5, slowStop: true}
 		o.gens = [][]int{{4, 1, 9, 1, 4}, {1}}
 		o.name = fmt.Sprintf("dir/mem%d/q2/max1000/overflow", mem)
 		add(o, 1, 2)
 		// many small chunks against a tiny queue AND a small size limit: dropped-but-kept files must stay accounted
-		q := params{memCap: mem, queueCap: 2, maxBuf: 10, dirOK: true, consumerAlt: 3}
+		q := params{memCap: mem, queueCap: 2, maxBuf: 10, dirOK: true, consumerAlt: 3, slowStop: true}
 		q.gens = [][]int{{1, 1, 1, 1, 1, 1, 1, 1, 1, 1, 1, 1, 1, 1}, {1}}
 		q.name = fmt.Sprintf("dir/mem%d/q2/max10/many-small", mem)
 		add(q, 1, 2)
 		// longer first generation, three generations
-		p := params{memCap: mem, queueCap: 50, maxBuf: 10, dirOK: true, consumerAlt: 5}
+		p := params{memCap: mem, queueCap: 50, maxBuf: 10, dirOK: true, consumerAlt: 5, slowStop: true}
 		p.gens = [][]int{{4, 4, 1, 4}, {1}, {}}
 		p.name = fmt.Sprintf("dir/mem%d/q50/max10/g3", mem)
 		add(p, 1, 2)
@@ -547,6 +745,12 @@ func scenarios() []*explore.Scenario {
 		u.gens = [][]int{{4, 1, 9}}
 		u.name = fmt.Sprintf("nodir/mem%d", mem)
 		add(u, 2, 3)
+		// unusable directory, more chunks than the in-memory window and everything around it (consumer's hands, feeder's hand)
+		// can hold: "only a fixed number of chunks stay in memory" must hold without a place to spill to (the code drops)
+		l := params{memCap: mem, queueCap: 50, maxBuf: 1000, dirOK: false, consumerAlt: 3}
+		l.gens = [][]int{{1, 1, 1, 1, 1, 1, 1, 1, 1}}
+		l.name = fmt.Sprintf("nodir/mem%d/long", mem)
+		add(l, 1, 2)
 	}
 	// a queue directory found at startup: chunk files of an earlier life, with the stale temporary file of an interrupted save
 	// in front of / between / behind them (the process was killed while saving an older in-memory chunk after newer ones
@@ -561,6 +765,30 @@ func scenarios() []*explore.Scenario {
 	r2.gens = [][]int{{1}, {}}
 	r2.name = "recover/n5/tmp@1+3"
 	add(r2, 1, 2)
+	// zero-length chunk files found at startup (nothing to forward): removed, counted as dropped, and the chunks around them
+	// are delivered in order
+	for _, at := range [][]int{{0}, {2}, {4}, {1, 3}, {0, 1, 2, 3, 4}} {
+		names := []string{}
+		for _, k := range at {
+			names = append(names, fmt.Sprint(k))
+		}
+		e := params{memCap: 2, queueCap: 50, maxBuf: 1000, dirOK: true, consumerAlt: 2, prefill: 5, emptyAt: at, slowStop: true}
+		e.gens = [][]int{{1}, {}}
+		e.name = "recover/n5/empty@" + strings.Join(names, "+")
+		add(e, 1, 2)
+	}
+	// the file of a queued, not yet loaded chunk vanishes or is cut to zero length while the agent runs (the consumer starts
+	// reading after the event): counted as dropped once the feeder comes across it, the others unaffected
+	for _, f := range []struct {
+		mem  int
+		kind string
+		at   int
+	}{{0, "vanish", 1}, {0, "vanish", 4}, {2, "vanish", 3}, {2, "vanish", 4}, {0, "truncate", 2}, {2, "truncate", 4}} {
+		v := params{memCap: f.mem, queueCap: 50, maxBuf: 1000, dirOK: true, consumerAlt: 3, prefill: 5, sabotage: f.kind, sabotageAt: f.at}
+		v.gens = [][]int{{1}, {}}
+		v.name = fmt.Sprintf("recover/n5/mem%d/%s@%d", f.mem, f.kind, f.at)
+		add(v, 1, 2)
+	}
 	// more chunk files than the queue takes in at startup, together exactly at the size limit: the files left on disk still
 	// count against the limit when the next chunk is spilled
 	for _, mem := range []int{0, 2} {
@@ -576,6 +804,16 @@ func scenarios() []*explore.Scenario {
 		b.name = fmt.Sprintf("recover/backlog%d", n)
 		add(b, 0, 0)
 	}
+	// chunks of real size (the forwarder's chunks reach about 7.5 MiB; page, 64 KiB and 4 MiB boundaries), default schedule:
+	// spilled at Accept and loaded again by the feeder (mem 0) or kept in memory and saved as hand-backs at shutdown (mem 50);
+	// the consumer keeps everything in generation 0, generation 1 recovers all of it from disk and confirms it
+	bigSizes := []int{4095, 4096, 4097, 65537, 1 << 20, 4 << 20, 4<<20 + 1, 5 << 20, 15 << 19, 8 << 20}
+	for _, mem := range []int{0, 50} {
+		b := params{memCap: mem, queueCap: 50, maxBuf: 1 << 30, dirOK: true, consumerAlt: 1, genAct: []int{1, 0}, noStateKeys: true}
+		b.gens = [][]int{bigSizes, {}}
+		b.name = fmt.Sprintf("big/mem%d/keep-then-recover", mem)
+		add(b, 0, 0)
+	}
 	return out
 }
 
@@ -585,7 +823,7 @@ func main() {
 			propFlag = os.Args[i+1]
 		}
 	}
-	flag.String("prop", "C03", "property id (C03, or C05 for the order oracle only)")
+	flag.String("prop", "C03", "property id (C03, C05 for the order oracle only, C19 for the metrics:* oracles only)")
 	logger.SetLogLevel(logger.InfoLevel)
 	logger.SetOutput(logs)
 	explore.Main(&explore.Config{
@@ -593,12 +831,19 @@ func main() {
 		Level:     "model_checking",
 		Scenarios: scenarios(),
 		Rule: "stateless DFS over schedules of the real hybridbuffer (driver Accept/Destroy, feeder goroutine, scripted consumer, consumer-finished waiters) and consumer behaviours " +
-			"(confirm / keep+hand back / stall / finish early) on a real scratch directory, across 1-3 generations of destroy+restart; parameter grid memory window x queue capacity x size limit x directory usable; " +
+			"(confirm / keep+hand back / stall / finish early / hang; after the stop the consumer takes 0, 2 x IntermediateChannelTimeout + 1 s or ForwarderAckerStopTimeout - 1 s of virtual time to hand back) " +
+			"on a real scratch directory, across 1-3 generations of destroy+restart; parameter grid memory window x queue capacity x size limit x directory usable; " +
+			"directories found at startup with stale temporaries, zero-length chunk files, more files than the queue takes, large backlogs; the file of a queued unloaded chunk removed or emptied while the agent runs; " +
+			"chunks of 4 KiB - 8 MiB on the default schedule; nine Accepts without a usable directory; " +
+			"every generation is judged on the directory, counters and consumer state at the moment Destroy returns; every Accept must return in zero virtual time; " +
 			"distinct_nontrivial = distinct per-generation accounting outcomes (seen/confirmed/on-disk/missing/dropped)",
 		Assumptions: []string{
 			"A-time (internal steps take zero virtual time)",
 			"driver operations (Accept, Destroy) are issued at quiescence by default and at any scheduling point at the cost of one deviation",
 			"memory bound asserted only in executions where every Accept was issued at quiescence (the code documents that the spill decision reads a stale length)",
+			"the drop counter is checked from both sides (dropped_chunks_total == chunks neither confirmed nor on disk) only in scenarios whose queue capacity covers every chunk of the run; with a queue that can overflow a counted drop may keep its file, there only missing <= dropped is asserted",
+			"a consumer that is stopped hands back within ForwarderAckerStopTimeout (what the forwarder is granted); a consumer that never returns is outside the buffer's reach, its unsaved chunks are not demanded; slow consumers are explored with a usable directory only (without one the harness scales BufferShutDownTimeout to 1 s)",
+			"file events of the environment are limited to a chunk that is queued and not loaded: removed (then owed as a counted drop from the moment the consumer is offered a younger chunk) or cut to zero length; promext gauges and counters are not scheduling points (check-then-act windows on the byte gauge are not explored)",
 			"sequentially consistent interleavings at synchronisation operations; file system is a real tmpfs directory, single runner",
 		},
 	})
